@@ -79,7 +79,7 @@ r(r"^decode::read_subframe::\{closure\}\|generic-arith\|ShlAssign:I", "wasted_bp
 r(r"^decode::read_lpc_subframe\|index\|", "predictor order is NonZero<u8> from type codes 32..=63: 1..=32 = array length")
 # ---- audio::Frame --------------------------------------------------------------------------------------------------------
 r(r"^audio::Frame::bytes_len\|assert\|Overflow:Mul:usize", "<= 4 bytes x 8 channels x 65535 samples")
-r(r"^audio::Frame::(channels|channels_mut)\|nonzero-arg\|", "channel_len is the block size of a decoded / about-to-be-encoded frame: >= 1 (block size codes exclude 0; writers guard empty final blocks, rule C08.trunc)")
+r(r"^audio::Frame::(channels|channels_mut)\|nonzero-arg\|", "channel_len is the block size of a decoded / about-to-be-encoded frame: >= 1 (block size codes exclude 0; every frame fill is shown non-empty by rule C15.guard 'fills its frame only with a non-empty block')")
 r(r"^audio::Frame::fill_from_(buf|samples)\|assert\|Div0:usize", "self.channels is the channel count validated (1..=8) before the writer is constructed")
 r(r"^audio::Frame::(fill_from_buf|to_buf)\|panic\|", "bytes_per_sample = ceil(bits/8) with bits in 1..=32: only 1..=4")
 r(r"^audio::Frame::fill_from_channels\|", "channel list validated by FlacChannelWriter::write (count == channel count >= 1, equal lengths) / finalize (all buffers drained in lock-step)")
